@@ -62,7 +62,13 @@ DOC_POOL = ["/**\n   * changed %s: ünïcödé /* not a comment start\n   @param
             "/**\n   * %s writes below C:\\logs\\\n   */",                      # one line, ends in a backslash
             "/**\n  µm  %s: text left of the asterisk column\n   */",            # multi-byte character at the margin
             "/**\n * %s \"quoted\" ??/ trigraph // slashes \\\n */",
-            "/**\n\t* %s\ttabs\n\t*/"]
+            "/**\n\t* %s\ttabs\n\t*/",
+            # texts that look like markup or directives of a target language or of a documentation tool:
+            # documentation is text, nothing in it is interpreted
+            "/**\n   * %s\n   * @deprecated Prefer the 64-bit variant.\n   * @param x the value\n   * @return Object_OK\n   */",
+            "/**\n   @deprecated %s\n   @Deprecated\n   #[deprecated]\n   __attribute__((deprecated))\n   */",
+            "/**\n   * %s\n   * \\deprecated \\brief #pragma once #define X 1 #include <x.h>\n   * @since 1.2 @see other @throws never {@link x} <pre> </pre> <b>bold</b>\n   */",
+            "/**\n   * @optional @unsafe #[optional] %s [[nodiscard]] [[deprecated]] TODO: FIXME: NOLINT\n   * #[must_use] #[inline] @Override @SuppressWarnings(\"all\") @Nullable\n   */"]
 
 
 def tokens(txt):
